@@ -8,7 +8,7 @@ from .. import mspace
 ID = "C20"
 RULE = ("Mode M: EVERY duplicate-free ordered variable list of length 1..3 over ids {'a','b','ue'(unicode),7,0,'7'} x every bounds choice from "
         "{(0,1),(-2,3),(-2,5),(1,1),(3,3),(-1,3)} (equal hash sums included; length 3: the first four, length 4: the first two) x every dictionary over a subset of the ids with/without an "
-        "unknown id x default_value in {None, callable} x dtype in {int64,int32,float64} for construct(); every sub-list (ordered, and nested "
+        "unknown id x default_value in {None, callable} x dtype in {int64,int32,int16,float64,float32,float16,longdouble} for construct(); every sub-list (ordered, and nested "
         "lists of lists) of every context for boolean/integer from_list; every 0/1 mask for to_list (1-D and 2-D); boolean/integer variable "
         "index partition for every list; A / b / to_linalg on every 2x2 system of the C11 space. oracle: the statement, literally. "
         "non-trivial = distinct case with at least one given and one defaulted position")
@@ -19,6 +19,9 @@ IDS = ["a", "b", "ü", 7, 0, "7"]      # the int 7 next to the str "7": ids that
 BMENU = [(0, 1), (-2, 3), (-2, 5), (1, 1), (3, 3), (-1, 3)]
 # distinct values so that permutations are visible; one of them is 0 (a given 0 is a value, not "missing")
 VAL = {"a": 11, "b": 0, "ü": 13, 7: -14, 0: -15, "7": 17, "zz": 99}
+
+
+DTYPES = (np.int64, np.int32, np.float64, np.float32, np.float16, np.int16, np.longdouble)
 
 
 def var_lists(tier):
@@ -90,7 +93,7 @@ def check_construct(k, tier, acc, only=None):
         for sub in itertools.combinations(range(n), r):
             for unknown in (False, True):
                 for dflt in (None, default_callable):
-                    for dt in (np.int64, np.int32, np.float64):
+                    for dt in DTYPES:
                         ci += 1
                         if only is not None and ci != only:
                             continue
@@ -112,7 +115,7 @@ def check_construct(k, tier, acc, only=None):
                                 want.append(VAL[ids[j]])
                             elif dflt is not None:
                                 want.append(default_callable(variables[j]))
-                            elif dt is np.float64:
+                            elif issubclass(dt, np.floating):
                                 want.append(math.nan)
                             else:
                                 want.append(bds[j][0])
